@@ -71,9 +71,12 @@ func checkC04(c gen.ProgCase) Verdict {
 		return excluded("does not compile (C01/C02 matter)")
 	}
 	rr := cb.render(c.Entry, c.Data, c.IJ, c.HasIJ)
-	if rr.err != nil || rr.panicked != nil || (!witness && ref.CanonRefs(rr.out) != ref.CanonRefs(want.Out)) {
-		return excluded("Go output differs from the reference (C01/C02 matter)")
+	if rr.err != nil || rr.panicked != nil {
+		return excluded("the Go render fails where the language defines output (C01/C02 matter)")
 	}
+	// (a Go output that differs from the reference is C01/C02's to report; this check still compares
+	// the two backends with each other)
+	goDiffers := !witness && ref.CanonRefs(rr.out) != ref.CanonRefs(want.Out)
 	files, err := jsSources(cb, soyjs.Options{}, false)
 	if err != nil {
 		return bad(true, "%v\n%s", err, showSources(names, srcs))
@@ -102,7 +105,11 @@ func checkC04(c gen.ProgCase) Verdict {
 		c04rec.add("outputs_compared", 1)
 	}
 	if ref.CanonRefs(r.Out) != ref.CanonRefs(rr.out) {
-		return bad(true, "outputs differ\n js %q\n go %q\n%s data=%v ij=%v\n%s", r.Out, rr.out, showSources(names, srcs), c.Data, c.IJ, showJS(files))
+		note := ""
+		if goDiffers {
+			note = fmt.Sprintf(" (the language defines %q)", want.Out)
+		}
+		return bad(true, "outputs differ%s\n js %q\n go %q\n%s data=%v ij=%v\n%s", note, r.Out, rr.out, showSources(names, srcs), c.Data, c.IJ, showJS(files))
 	}
 	// both backends work from one compiled bundle: generating the JavaScript must leave the Go
 	// renderer's output as it was, and a second generation must give the same text
